@@ -17,6 +17,7 @@ import (
 	"sync"
 	"sync/atomic"
 
+	"github.com/dgraph-io/badger/v4/vhook"
 	"github.com/dgraph-io/badger/v4/y"
 	"github.com/dgraph-io/ristretto/v2/z"
 )
@@ -85,12 +86,15 @@ func (o *oracle) readTs() uint64 {
 	readTs = o.nextTxnTs - 1
 	o.readMark.Begin(readTs)
 	o.Unlock()
+	vhook.Point("txn.readTs.begun")
 
 	// Wait for all txns which have no conflicts, have been assigned a commit
 	// timestamp and are going through the write to value log and LSM tree
 	// process. Not waiting here could mean that some txns which have been
 	// committed would not be read.
 	y.Check(o.txnMark.WaitForMark(context.Background(), readTs))
+	vhook.Event("readTs", readTs, 0)
+	vhook.Point("txn.readTs.done")
 	return readTs
 }
 
@@ -155,6 +159,7 @@ func (o *oracle) newCommitTs(txn *Txn) (uint64, bool) {
 	defer o.Unlock()
 
 	if o.hasConflict(txn) {
+		vhook.Event("conflict", o.nextTxnTs, txn.readTs)
 		return 0, true
 	}
 
@@ -524,6 +529,13 @@ func (txn *Txn) commitAndSend() (func() error, error) {
 	// the order in which we push these updates to the write channel. So, we
 	// acquire a writeChLock before getting a commit timestamp, and only release
 	// it after pushing the entries to it.
+	vhook.WaitLock("txn.commit.writeChLock", func() bool {
+		if orc.writeChLock.TryLock() {
+			orc.writeChLock.Unlock()
+			return true
+		}
+		return false
+	})
 	orc.writeChLock.Lock()
 	defer orc.writeChLock.Unlock()
 
@@ -531,6 +543,8 @@ func (txn *Txn) commitAndSend() (func() error, error) {
 	if conflict {
 		return nil, ErrConflict
 	}
+	vhook.Event("commitTs", commitTs, txn.readTs)
+	vhook.Point("txn.commit.tsAllocated")
 
 	keepTogether := true
 	setVersion := func(e *Entry) {
@@ -592,15 +606,22 @@ func (txn *Txn) commitAndSend() (func() error, error) {
 
 	req, err := txn.db.sendToWriteCh(entries)
 	if err != nil {
+		vhook.Event("commitFailed", commitTs, 0)
 		orc.doneCommit(commitTs)
 		return nil, err
 	}
 	ret := func() error {
 		err := req.Wait()
+		vhook.Point("txn.commit.applied")
+		if err != nil {
+			vhook.Event("commitFailed", commitTs, 0)
+		}
 		// Wait before marking commitTs as done.
 		// We can't defer doneCommit above, because it is being called from a
 		// callback here.
 		orc.doneCommit(commitTs)
+		vhook.Event("commitDone", commitTs, 0)
+		vhook.Point("txn.commit.done")
 		return err
 	}
 	return ret, nil
@@ -678,6 +699,7 @@ type txnCb struct {
 }
 
 func runTxnCallback(cb *txnCb) {
+	vhook.Point("txncb.start")
 	switch {
 	case cb == nil:
 		panic("txn callback is nil")
